@@ -8,6 +8,7 @@ mod bootcache;
 mod quote;
 mod wire;
 mod wireshape;
+mod wirecodec;
 mod parsers;
 mod store;
 mod register;
@@ -37,6 +38,7 @@ fn main() {
         ("Quote", quote::generate),
         ("Wire", wire::generate),
         ("WireShape", wireshape::generate),
+        ("WireCodec", wirecodec::generate),
         ("Parsers", parsers::generate),
         ("Store", store::generate),
         ("Register", register::generate),
